@@ -14,7 +14,8 @@ from vlib.checks.netutil import Net
 PROPERTY = "C05"
 LEVEL = "exploration"
 RULE = ("a case = a drawn parent-closed set of 2..12 addresses (depth <= 4), each node RF24Network or routing-only with a drawn "
-        "MCU timing model (SPI cost 8..400 us, jitter, poll period), fragmentation on/off, and 1..4 sequential messages "
+        "MCU timing model (SPI cost 8..400 us, jitter, poll period), optionally a multicast_level override and an earlier address it was "
+        "moved from with the node_address setter, fragmentation on/off, and 1..4 sequential messages "
         "(source, destination among full nodes; length 0..144, 0..24 with fragmentation off, biased to 0/24/25/48/49/144; user "
         "type 0..127; drawn bytes; fresh or explicit frame ids; write() or send()).  non-trivial = a message with >= 2 hops, or "
         "> 24 bytes, or an acknowledged type over >= 2 hops; distinct = SHA-1 of the case JSON")
@@ -96,7 +97,9 @@ def run_case(case):
 
     def main():
         for n in case["nodes"]:
-            c = net.add(n["addr"], n["kind"], n["addr"], mcu=n.get("mcu"))
+            c = net.add(n["addr"], n["kind"], n["addr"] if n.get("was") is None else n["was"], mcu=n.get("mcu"))
+            if n.get("was") is not None:
+                c.node.node_address = n["addr"]  # the node held another address before (public setter)
             if not frag_on:
                 c.node.fragmentation = False
             if n.get("mc_level") is not None:
@@ -236,6 +239,11 @@ def _strategy():
             for n in nodes:
                 if draw(st.booleans()):
                     n["mc_level"] = draw(st.integers(0, 4))
+        if draw(st.integers(0, 2)) == 0:
+            for n in nodes:
+                if draw(st.booleans()):
+                    was = draw(st.sampled_from([0, 0o1, 0o3, 0o5, 0o15, 0o21, 0o125, 0o3125, 0o4444, n["addr"]]))
+                    n["was"] = was
         msgs = []
         for _ in range(draw(st.integers(1, 4))):
             s = draw(st.sampled_from(full))
